@@ -188,7 +188,9 @@ func judgeFinalizer(c *vs.Case, e *Env, t *SyncTrace, pre map[string]any, faultF
 		return vs.Violf("C10/finalizer-kept-after-finalized", "every finalize answer said finalized:true but the finalizer is still there")
 	}
 	// children are still reconciled to the finalize answer (single-revision case)
-	if wantFinalize && manage && len(calls) == 1 && t.Err == nil && !finRemoved && !conflictFired {
+	// (a deleting parent whose finalizer was removed in this sync is no longer managed; an alive,
+	// merely unselected one still is)
+	if wantFinalize && manage && len(calls) == 1 && t.Err == nil && (!finRemoved || !deleting) && !conflictFired {
 		resp, _ := vs.DecodeJSON(calls[0].Response.Body)
 		key := "children"
 		if cfg.Kind == "decorator" {
